@@ -95,9 +95,16 @@ def validate(chk: Check, label, traces, infos, shards):
     chk.count(sum(len(t) for t in traces))
     seen = set()
     excluded = 0
+    classes = {}
     for r in results:
         chk.add_tlc(r, "PassThrough_Trace " + label)
         for rec in r.printed():
+            if isinstance(rec, dict) and "cls" in rec:
+                c = rec["cls"]
+                k = "%s/%s/%s%s%s" % (c["st"], c["status"], "canonical" if c["canon"] else "NON-canonical",
+                                      "/trailing-bytes" if c["rest"] else "", "/blocks-missing" if c["partial"] else "")
+                classes[k] = classes.get(k, 0) + 1
+                continue
             if not (isinstance(rec, dict) and "fail" in rec):
                 continue
             key = (rec["tid"], rec["fail"])
@@ -120,6 +127,12 @@ def validate(chk: Check, label, traces, infos, shards):
                       dict(infos[ti], event=common._clip({k: v for k, v in ev.items() if k != "T"}, 80)))
     if excluded:
         chk.cov["excluded_f32_snan_cases"] = chk.cov.get("excluded_f32_snan_cases", 0) + excluded
+    # vacuity: every case of the property must have been re-encoded at least once
+    chk.cov["reencodings_by_case_" + label] = dict(sorted(classes.items()))
+    for need in ("raw/ok/canonical", "raw/fail/canonical", "parsed/ok/canonical", "parsed/ok/NON-canonical", "failed/fail/canonical",
+                 "parsed/ok/canonical/trailing-bytes", "parsed/ok/canonical/blocks-missing"):
+        if not any(k == need for k in classes):
+            raise MachineryError("vacuous run: no re-encoding of case %s among the %s traces" % (need, label))
 
 
 # ------------------------------------------------------------------------------------------
@@ -139,15 +152,26 @@ def mini(chk: Check, alpha, maxtail, flagset, depth_deferred, depth_eager, shard
     if not res.ok:
         return
     universe, inits, hists = None, [], []
+    dclasses = {}
     for r in res.printed():
         if "universe" in r:
             universe = r["universe"]
         elif "init" in r:
             inits.append(r)
+            c = r["cls"]
+            k = "%s/%s%s%s%s" % (c["status"], ("canonical-z" if c["canon"] else "NON-canonical-z") if c["z"] else "plain",
+                                 "/trailing-bytes" if c["rest"] else "", "/blocks-missing" if c["partial"] else "",
+                                 "/acks" if c["acks"] else "")
+            dclasses.setdefault(k, set()).add(bytes(r["init"]))
         elif "hist" in r:
             hists.append(r)
     if universe is None or len(hists) < 500:
         raise MachineryError("PassThrough_MC exported %d histories" % len(hists))
+    chk.cov["mini_datagrams_by_class"] = {k: len(v) for k, v in sorted(dclasses.items())}
+    for need in ("ok/plain", "ok/canonical-z", "ok/NON-canonical-z", "fail/plain", "fail/canonical-z", "empty/plain",
+                 "ok/plain/trailing-bytes", "ok/plain/blocks-missing", "ok/plain/acks"):
+        if need not in dclasses:
+            raise MachineryError("vacuous model: no datagram of class %s in the bounded universe" % need)
     text = c01.render_template_text(universe)
     by_name = {t["name"]: t for t in universe}
     codecs = {}
